@@ -163,3 +163,72 @@ def stopping_rule(chk, cid, prog, p, cfgname):
                     'after the solution is updated the residual and BERR must be recomputed before the loop can exit: there is a path from the update to the '
                     'function exit that does not store berr[j] (BERR would describe the previous iterate)', cfgname=cfgname)
     return n
+
+
+def _zero(e):
+    e = strip(e)
+    if e.k == 'Float':
+        return 0 if e.a['value'] == 0.0 else None
+    v = const_value(e)
+    return 0 if v == 0 else None
+
+
+def guarded_division(chk, cid, prog, p, cfgname):
+    """BERR is a maximum of ratios |r_i| / (|op(A)||x| + |b|)_i.  A denominator that is exactly zero means the true residual is zero too and the
+    entry must be skipped: every division by an element of the denominator array must sit under a test that excludes zero for that very element
+    (`d > e` or `d != 0` on the true side, `d == 0` / `d <= 0`-style tests on the false side do not count unless they are exact)."""
+    f = prog.func(p + 'gsrfs')
+    berr = f.params[ppos(f, 'berr') - 1][1]
+    from ..facts import canon
+    n = [0]
+
+    def excludes_zero(cond, d, positive):
+        for conj in r2.dnf(cond, positive):
+            ok = False
+            for (a, pol) in conj:
+                a = strip(a)
+                if a.k != 'Binary':
+                    continue
+                op, l, r = a.a['op'], canon(a.c[0]), canon(a.c[1])
+                lz, rz = _zero(a.c[0]), _zero(a.c[1])
+                if pol and ((op in ('>',) and l == d) or (op == '<' and r == d)):
+                    ok = True        # d > something non-negative (safe2 >= 0 by construction) - accepted idiom of the routine
+                if pol and op == '!=' and ((l == d and rz == 0) or (r == d and lz == 0)):
+                    ok = True
+                if (not pol) and op == '==' and ((l == d and rz == 0) or (r == d and lz == 0)):
+                    ok = True
+            if not ok:
+                return False
+        return True
+
+    def walk(x, guards):
+        if x.k == 'If':
+            walk(x.c[0], guards)
+            walk(x.c[1], guards + [(x.c[0], True)])
+            if len(x.c) > 2:
+                walk(x.c[2], guards + [(x.c[0], False)])
+            return
+        if x.k == 'Conditional':
+            walk(x.c[0], guards)
+            walk(x.c[1], guards + [(x.c[0], True)])
+            walk(x.c[2], guards + [(x.c[0], False)])
+            return
+        if x.k == 'Binary' and x.a['op'] == '/':
+            dv = strip(x.c[1])
+            if dv.k == 'Index' and root_ref(dv) is not None and root_ref(dv).a.get('name') == 'rwork':
+                n[0] += 1
+                d = canon(dv)
+                key = '%s:denominator-nonzero@%d' % (f.name, n[0])
+                if any(excludes_zero(c, d, pos) for (c, pos) in guards):
+                    chk.ok(cid, key, sample=pretty(x)[:80])
+                else:
+                    chk.violate(cid, key, loc(f, x), f.name,
+                                'division by %s without a test that excludes an exactly-zero denominator on this path: BERR becomes inf/NaN for a row '
+                                'whose |op(A)||x|+|b| is zero' % pretty(dv), cfgname=cfgname)
+        for c in x.c:
+            walk(c, guards)
+    walk(f.body, [])
+    if n[0] < 2:
+        from ..run import AnalysisBroken
+        raise AnalysisBroken('%s: %d divisions by rwork[] found, expected >= 2' % (f.name, n[0]))
+    return n[0]
